@@ -220,7 +220,9 @@ def gen(rng, tier):
         r = rng.fork("m%d" % i)
         cases.append({"kind": "raw", "text": mutate(r, r.choice(seeds)).hex()})
     # interpolation / property-path parser: random strings over its alphabet, as values and as object keys
-    alpha = ["${", "}", "]", "[", ".", "\"", "\\", "a", "b", "0", "1", "-", " ", "$", "$$", "x.y", "[0]", "[\"k\"]"]
+    # incl. multi-byte characters whose UTF-8 bytes contain 0x85 / 0xA0 (bytes that unicode.IsSpace accepts as runes)
+    alpha = ["${", "}", "]", "[", ".", "\"", "\\", "a", "b", "0", "1", "-", " ", "$", "$$", "x.y", "[0]", "[\"k\"]",
+             "\u00e0", "\u00c5", "\u0445", "\u00e9", "\u00a0", "\u0085", "\u2028", "\t"]
     for i in range(6000 if thorough else 700):
         r = rng.fork("i%d" % i)
         t = "".join(r.choice(alpha) for _ in range(1 + r.below(9)))
